@@ -1,9 +1,12 @@
 import SqlgrepModel.Lemmas.IterOrderEngine
+import SqlgrepModel.Model.Pipeline
 /-
 C18 — output is deterministic and independent of hash seeds.
 
 The model is a pure function of (statement, table infos, lines): running it twice gives the same answer by
-construction, and it has no notion of "other tables". What a hash seed can change in the real program is the
+construction. Which *other* tables are defined is visible only to the end-to-end model (`Model/Pipeline.lean`:
+`addTables` / `getTable`); the last section shows that a run looks at the definitions of the queried and the joined
+table only. What a hash seed can change in the real program is the
 order in which a `HashMap` is *iterated*. The engines iterate exactly one hash map: the inner
 `HashMap<usize, GroupAggregator>` of every group in the first loop of `execute_result` (percentile
 aggregators publish their value); every other hash map (`columns`, join index, DISTINCT memory, COUNT(DISTINCT)
@@ -232,5 +235,64 @@ theorem wildcard_names (O : Oracles) (q : SelectStmt) (seen : List (List Value))
       · simp [hfresh, pure] at h
     · simp [hd, pure] at h
       rw [← h.2]
+
+/-! ### "irrespective of which other tables are defined" -/
+
+open Sqlgrep.Pipeline in
+/-- looking a table up depends only on the definitions that carry that name -/
+theorem lookup_depends_on_same_named_tables (ts : List Table) (name : String) :
+    getTable ts name = getTable (ts.filter (fun t => t.name == name)) name := by
+  unfold getTable
+  rw [← List.filter_reverse]
+  generalize ts.reverse = l
+  induction l with
+  | nil => rfl
+  | cons t l ih =>
+    by_cases h : (t.name == name) = true
+    · simp [List.filter, List.find?, h]
+    · have h' : (t.name == name) = false := by simpa using h
+      simp only [List.filter, List.find?, h']
+      exact ih
+
+open Sqlgrep.Pipeline in
+/-- defining further tables under other names — before, between or after the ones a statement uses — changes nothing:
+the run of a statement over table lists that agree on the definitions named like the queried table and like the
+joined table is the same run -/
+theorem other_tables_irrelevant (F : Facts) (ts1 ts2 : List Table) (stmt : Stmt) (fromTable : String) (join : Option LJoin)
+    (files : List (List Nat))
+    (hfrom : ts1.filter (fun t => t.name == fromTable) = ts2.filter (fun t => t.name == fromTable))
+    (hjoin : ∀ j, join = some j → ts1.filter (fun t => t.name == j.joinedTable) = ts2.filter (fun t => t.name == j.joinedTable)) :
+    runStatement F ts1 stmt fromTable join files = runStatement F ts2 stmt fromTable join files := by
+  have e1 : getTable ts1 fromTable = getTable ts2 fromTable := by
+    rw [lookup_depends_on_same_named_tables ts1, lookup_depends_on_same_named_tables ts2, hfrom]
+  unfold runStatement
+  rw [e1]
+  cases join with
+  | none => cases getTable ts2 fromTable <;> rfl
+  | some j =>
+    have e2 : getTable ts1 j.joinedTable = getTable ts2 j.joinedTable := by
+      rw [lookup_depends_on_same_named_tables ts1, lookup_depends_on_same_named_tables ts2, hjoin j rfl]
+    cases getTable ts2 fromTable with
+    | none => rfl
+    | some t => simp only [e2]
+
+open Sqlgrep.Pipeline in
+/-- in particular: appending or prepending any tables with other names -/
+theorem extra_tables_irrelevant (F : Facts) (ts pre post : List Table) (stmt : Stmt) (fromTable : String) (join : Option LJoin)
+    (files : List (List Nat))
+    (hpre : ∀ t ∈ pre ++ post, t.name ≠ fromTable ∧ ∀ j, join = some j → t.name ≠ j.joinedTable) :
+    runStatement F (pre ++ ts ++ post) stmt fromTable join files = runStatement F ts stmt fromTable join files := by
+  have drop : ∀ (n : String), (∀ t ∈ pre ++ post, t.name ≠ n) →
+      (pre ++ ts ++ post).filter (fun t => t.name == n) = ts.filter (fun t => t.name == n) := by
+    intro n hn
+    have hp : pre.filter (fun t => t.name == n) = [] := by
+      rw [List.filter_eq_nil_iff]; intro t ht; simpa using hn t (List.mem_append_left _ ht)
+    have hq : post.filter (fun t => t.name == n) = [] := by
+      rw [List.filter_eq_nil_iff]; intro t ht; simpa using hn t (List.mem_append_right _ ht)
+    simp [List.filter_append, hp, hq]
+  apply other_tables_irrelevant
+  · exact drop fromTable (fun t ht => (hpre t ht).1)
+  · intro j hj
+    exact drop j.joinedTable (fun t ht => (hpre t ht).2 j hj)
 
 end Sqlgrep.Props.C18
